@@ -24,7 +24,7 @@ DOT = "·"
 
 # identifiers that stand for bound Python names in the forms (everything else - ls, echo, cmd,
 # cat, git ... - is an unbound word, i.e. a command for xonsh's context-sensitive parser)
-BOUND = frozenset("a b c d e i j k v w x y z f g m s t self print E A B M dec dec2 ctx aliases int sep".split())
+BOUND = frozenset("a b c d e i j k u v w x y z f g m s t self print E A B M dec dec2 ctx aliases int sep".split())
 
 # expressions (Python)
 PY_EXPRS = [
@@ -413,6 +413,33 @@ EOLS = ["\r\n"]
 FINALS = ["", "\n\n\n", "\n  \n", "  ", "\n# c", "\n\t"]
 FINALS_2 = [""]
 
+# Characters that str.splitlines() treats as line boundaries but the tokenizer (and '\n'-based
+# line bookkeeping) does not: form feed, vertical tab, FS, NEL, LINE SEPARATOR.  One of them is
+# placed in a PRELUDE line in front of the form - inside a one-line string, inside a triple-quoted
+# string, inside a comment, or as leading white space of a statement - and the form is followed
+# by a TAIL holding the constructs whose layout depends on per-line source look-ups (bracketed
+# expression continued over lines with a hanging indent, f-string with doubled braces, backslash
+# continuations in Python and subprocess mode, own-line comment in a nested block).  The tail on
+# its own is formatted meaning-preservingly and idempotently by the unchanged formatter.
+LINESEP_CHARS = ["\x0c", "\x0b", "\x1c", "\x85", "\u2028"]
+PRELUDE_PLACES = ["str", "mlstr", "cmt", "lead"]
+PRELUDES = [(pl, ch) for pl in PRELUDE_PLACES for ch in LINESEP_CHARS]
+PRELUDES_2 = [("str", "\x0c"), ("mlstr", "\u2028"), ("cmt", "\x85"), ("lead", "\x0c")]
+PRELUDE_TAIL = "t = [a,\n     b]\nu = f'{{a}} {b} }}'\nv = a + \\\n    b\nls -l \\\n    -a\nif t:\n    # c\n    w = (t,\n         u)\n"
+
+
+def prelude_text(alt):
+    place, ch = alt
+    if place == "str":
+        return "s = 'a%sb'\n" % ch
+    if place == "mlstr":
+        return "s = '''a%sb\nc'''\n" % ch
+    if place == "cmt":
+        return "# a%sb\n" % ch
+    if place == "lead":
+        return "%ss = 1\n" % ch
+    raise AssertionError(alt)
+
 
 def _depths(lines):
     """bracket depth *after* each chunk, per line (brackets can span lines)."""
@@ -430,9 +457,11 @@ def _depths(lines):
     return out
 
 
-def sites(lines, reduced=False):
+def sites(lines, reduced=False, prelude=False):
     """[(site_id, [alternatives])] - alternative lists never contain the canonical choice."""
     out = []
+    if prelude:
+        out.append((("prelude",), list(PRELUDES_2 if reduced else PRELUDES)))
     dep = _depths(lines)
     g_out, g_in = (GAP_OUT_2, GAP_IN_2) if reduced else (GAP_OUT, GAP_IN)
     start_depth = 0
@@ -508,6 +537,8 @@ def render(lines, devs):
         out.append("\n")
         start_depth = dep[li][-1]
     text = "".join(out)
+    if ("prelude",) in devs:
+        text = prelude_text(devs[("prelude",)]) + text + PRELUDE_TAIL
     fin = devs.get(("final",))
     if fin is not None:
         text = text[:-1] + fin
@@ -516,19 +547,19 @@ def render(lines, devs):
     return text
 
 
-def layouts(lines, k, reduced_pairs=True):
+def layouts(lines, k, reduced_pairs=True, prelude=False):
     """Every deviation set of size <= k, simplest first.  Sets of size 2 use the reduced alphabet
     when reduced_pairs is set (the full x full product is what the bound k=2 would mean with the
     full alphabet; the reduced one keeps the thorough tier inside its budget - stated in the
     evidence)."""
     yield ()
-    full = sites(lines)
+    full = sites(lines, prelude=prelude)
     if k >= 1:
         for sid, alts in full:
             for a in alts:
                 yield ((sid, a),)
     if k >= 2:
-        ss = sites(lines, reduced=reduced_pairs)
+        ss = sites(lines, reduced=reduced_pairs, prelude=prelude)
         for (s1, a1s), (s2, a2s) in itertools.combinations(ss, 2):
             for a1 in a1s:
                 for a2 in a2s:
